@@ -5,6 +5,7 @@ import RbV.Model.AMapProofs
 import RbV.Model.IitIndex
 import RbV.Model.DumpProofs
 import RbV.Thm.GenSrcIit
+import RbV.Thm.GenSrcAvlFind
 /-!
 # C07 — interval trees and the annotation map report exactly the overlapping entries; the AVL tree stays balanced
 
@@ -348,5 +349,186 @@ example : Gen.SrcIit.findInto Iit.max3
 example : Gen.SrcIit.findInto Iit.max3
     [((0 : Int), ((0 : Int), (2 : Int)), (2 : Int)), (1, (1, 3), 3), (2, (2, 3), 3), (3, (2, 4), 50), (4, (3, 50), 50)] 2 true
     (2, 3) [] = Rs.Res.ok [((1, 3), 1), ((2, 3), 2), ((2, 4), 3)] := by decide +kernel
+
+/-! ## The source text of the AVL tree (translated on every run, `Gen/SrcAvl.lean`; builder genavl)
+
+`tools/rs2lean_genavl.py` (dialect "avl") turns `struct Node` into a recursive Lean structure and translates
+`Node::{new, update_height, update_max, rotate_left, rotate_right, repair, insert}`, `swap_interval_data`,
+`IntervalTree::{default, insert, find, find_mut}`, `intersect` and both `next` functions.  `GenSrcAvl.toTree` reads a
+translated node as a tree of the mirror model.  `N`, `D` are read at `Int`; heights are `i64` with checked arithmetic. -/
+
+open RbV.GenSrcAvl in
+/-- **the in-place rotations of the source = the model's pointer rotations**, on the abstract tree (same shape, same
+payload, `max` and `height` at every position): with stored heights of the three re-hung subtrees in `[0, B]`,
+`B + 2 < 2^63`, `rotate_left` / `rotate_right` do not panic and yield `Avl.rotateLeft` / `Avl.rotateRight` of the tree;
+without the child that moves up they panic (`unwrap()` on `None`; the model's `rotateLeftP` / `rotateRightP` is `none`) -/
+theorem avl_rotate_source_eq_model (n : Gen.SrcAvl.Node) (B : Int) (hB : B + 2 < 2 ^ 63) (hl : HR B n.left)
+    (hr : HR B n.right) (hrc : ∀ r, n.right = some r → HR B r.left ∧ HR B r.right)
+    (hlc : ∀ l, n.left = some l → HR B l.left ∧ HR B l.right) :
+    (match rotateLeftP (toTree n) with
+      | some t => ∃ n', Gen.SrcAvl.rotateLeft n = Rs.Res.ok n' ∧ toTree n' = t ∧ t = rotateLeft (toTree n)
+      | none => Gen.SrcAvl.rotateLeft n = Rs.Res.panic) ∧
+    (match rotateRightP (toTree n) with
+      | some t => ∃ n', Gen.SrcAvl.rotateRight n = Rs.Res.ok n' ∧ toTree n' = t ∧ t = rotateRight (toTree n)
+      | none => Gen.SrcAvl.rotateRight n = Rs.Res.panic) :=
+  ⟨rotateLeft_eq_model n B hB hl hrc, rotateRight_eq_model n B hB hr hlc⟩
+
+open RbV.GenSrcAvl in
+/-- **`repair` as written in the source = the model's `repair`**: on a node whose subtrees have exact `max` / `height`
+fields and fewer than `2^60` nodes, the translated `repair` (balance test on `(left_h - right_h).abs()`, inner rotation
+of the zig-zag cases through the `&mut` borrowed from the child slot, outer rotation) never panics — no `expect` on a
+missing child, no `i64` overflow — and returns exactly `Avl.repair` of the tree -/
+theorem avl_repair_source_eq_model (n : Gen.SrcAvl.Node) (fl : Fields (toTreeO n.left)) (fr : Fields (toTreeO n.right))
+    (hs : size (toTree n) < 2 ^ 60) :
+    ∃ n', Gen.SrcAvl.repair n = Rs.Res.ok n' ∧ toTree n' = repair (toTree n) :=
+  repair_eq_model n fl fr hs
+
+open RbV.GenSrcAvl in
+/-- **`Node::insert` as written in the source = the model's insertion, for every tie-break test**: the condition of the
+first `if` of `insert` is a hole `goLeft`; whenever it computes a tie-break `tb` of the model (`HoleIs`), the recursive
+translated `insert` — on a tree with exact fields and balance, fewer than `2^60 - 1` nodes, fuel at least the height —
+neither panics nor runs out of fuel and returns `Avl.insertG tb` of the tree -/
+theorem avl_insert_source_eq_model (goLeft : (Int × Int) → Gen.SrcAvl.Node → Bool) (tb : TieBreak)
+    (hh : HoleIs goLeft tb) (fuel : Nat) (n : Gen.SrcAvl.Node) (iv : Int × Int) (d : Int) (g : Good (toTree n))
+    (hs : size (toTree n) + 1 < 2 ^ 60) (hf : ht (toTree n) ≤ fuel) :
+    ∃ n', Gen.SrcAvl.nodeInsert goLeft fuel n iv d = Rs.Res.ok n' ∧
+      toTree n' = insertG tb (toTree n) ⟨iv.1, iv.2, d⟩ :=
+  nodeInsert_eq_model goLeft tb hh fuel n iv d g hs hf
+
+open RbV.GenSrcAvl in
+/-- the test found in the source is a tie-break of the model and is admissible: an interval that goes left does not start
+after the visited node, one that goes right does not start before it (`TieOk`).  Holds for the pinned `<=` and for the
+`<` of seeded change C07-H1; a test that sends smaller starts right does not satisfy it -/
+theorem avl_tiebreak_source_admissible : HoleIs Gen.SrcAvl.nodeInsert_goLeft srcTb ∧ TieOk srcTb :=
+  ⟨holeIs_src, tieOk_src⟩
+
+/-- the mirror model with **any admissible tie-break** keeps the whole invariant, the multiset and the height bound —
+the proofs of `insert_inv`, `insert_perm`, `insert_height` do not depend on where equal starts go -/
+theorem avl_model_any_tiebreak_accepted (tb : TieBreak) (htb : TieOk tb) (t : Tree) (e : Entry) (h : Inv t) :
+    Inv (insertG tb t e) ∧ (toList (insertG tb t e)).Perm (e :: toList t) ∧
+      realHeight t ≤ realHeight (insertG tb t e) ∧ realHeight (insertG tb t e) ≤ realHeight t + 1 := by
+  have g := ((inv_iff t).mp h).2
+  have gi := insertG_good tb t e g
+  refine ⟨insertG_inv tb htb t e h, toList_insertG_perm tb t e, ?_⟩
+  rw [← ht_eq_realHeight t g.1, ← ht_eq_realHeight _ gi.1.1]
+  exact gi.2
+
+/-- with a test that behaves like the pinned one (`start <= node.start`) the generalised model is the mirror model the
+driver runs next to the real tree -/
+theorem avl_model_pinned_tiebreak_is_insert (tb : TieBreak) (h : ∀ e x, tb e x = decide (e.lo ≤ x.lo)) (t : Tree)
+    (e : Entry) : insertG tb t e = insert t e := by
+  have : tb = tbLe := by funext a b; exact h a b
+  rw [this, insertG_le]
+
+open RbV.GenSrcAvl in
+/-- **`IntervalTree::insert` as written in the source preserves the invariants**: on a tree that satisfies `Inv` (order,
+`max`, `height`, balance) with fewer than `2^60 - 1` nodes and fuel at least the node count, the translated `insert`
+with the tie-break found in the source does not panic, the new tree satisfies `Inv` again, holds exactly the old
+entries plus the new one, and is at most one level higher -/
+theorem avl_insert_source_preserves_invariants (fuel : Nat) (T : Gen.SrcAvl.IntervalTree) (iv : Int × Int) (d : Int)
+    (h : Inv (toTreeO T.root)) (hs : size (toTreeO T.root) + 1 < 2 ^ 60) (hf : size (toTreeO T.root) ≤ fuel) :
+    ∃ T', Gen.SrcAvl.treeInsert Gen.SrcAvl.nodeInsert_goLeft fuel T iv d = Rs.Res.ok T' ∧ Inv (toTreeO T'.root) ∧
+      (toList (toTreeO T'.root)).Perm (⟨iv.1, iv.2, d⟩ :: toList (toTreeO T.root)) ∧
+      realHeight (toTreeO T.root) ≤ realHeight (toTreeO T'.root) ∧
+      realHeight (toTreeO T'.root) ≤ realHeight (toTreeO T.root) + 1 := by
+  obtain ⟨T', h1, h2⟩ := treeInsert_eq_model _ srcTb holeIs_src fuel T iv d ((inv_iff _).mp h).2 hs hf
+  refine ⟨T', h1, ?_⟩
+  rw [h2]
+  exact avl_model_any_tiebreak_accepted srcTb tieOk_src _ _ h
+
+open RbV.GenSrcAvl in
+/-- **`find` + `IntervalTreeIterator::next` as written in the source = the model's `find`** (`avl_find_source_eq_model`):
+for any tree and `fuel > 2·nodes + 1` the iterator built by the translated `find` and drained by calling the translated
+`next` until `None` never panics or runs out of fuel and yields exactly the model's result list, in the model's order;
+the same for `find_mut` + `IntervalTreeIteratorMut::next` -/
+theorem avl_find_source_eq_model (F : Nat) (T : Gen.SrcAvl.IntervalTree) (iv : Int × Int)
+    (hF : 2 * size (toTreeO T.root) + 1 < F) :
+    (∃ res, srcFind F T iv = Rs.Res.ok res ∧ res.map toE = find (toTreeO T.root) ⟨iv.1, iv.2⟩) ∧
+    (∃ res, srcFindMut F T iv = Rs.Res.ok res ∧ res.map toEM = find (toTreeO T.root) ⟨iv.1, iv.2⟩) :=
+  ⟨find_eq_model F T iv hF, findMut_eq_model F T iv hF⟩
+
+open RbV.GenSrcAvl in
+/-- one call of either `next` from any stack: `None` exactly when the model has nothing more to report, otherwise the
+model's next entry and the stack from which the model continues -/
+theorem avl_next_source_eq_model (iv : Int × Int) (F : Nat) (ns : List Gen.SrcAvl.Node) (hw : W ns < F) :
+    (∃ r ns', Gen.SrcAvl.iterNext F ⟨ns, iv⟩ = Rs.Res.ok (r, ⟨ns', iv⟩) ∧ W ns' ≤ W ns ∧
+      ((r = none ∧ findLoop (qOf iv) (stackOf ns) = []) ∨
+        ∃ c, r = some ⟨c.value, c.interval⟩ ∧
+          findLoop (qOf iv) (stackOf ns) = entryOf c :: findLoop (qOf iv) (stackOf ns'))) ∧
+    (∃ r ns', Gen.SrcAvl.iterMutNext F ⟨ns, iv⟩ = Rs.Res.ok (r, ⟨ns', iv⟩) ∧ W ns' ≤ W ns ∧
+      ((r = none ∧ findLoop (qOf iv) (stackOf ns) = []) ∨
+        ∃ c, r = some ⟨c.value, c.interval⟩ ∧
+          findLoop (qOf iv) (stackOf ns) = entryOf c :: findLoop (qOf iv) (stackOf ns'))) :=
+  ⟨iterNext_eq_model iv F ns hw, iterMutNext_eq_model iv F ns hw⟩
+
+open RbV.GenSrcAvl in
+/-- **End to end on the source text** (`avl_find_source_correct`): take any history of fewer than `2^60` positive-width
+insertions, run it through the translated `IntervalTree::default` and `insert` (tie-break as in the source), then query
+with any positive-width interval through the translated `find` + `next`: nothing panics, the fuel (`2·n + 2`) suffices,
+the tree satisfies the whole invariant, and the drained iterator holds exactly the inserted entries that overlap the
+query (as a multiset) -/
+theorem avl_find_source_correct (es : List (Int × Int × Int)) (q : Int × Int) (hn : es.length < 2 ^ 60)
+    (hw : ∀ p ∈ es, p.1 < p.2.1) (hq : q.1 < q.2) (F : Nat) (hF : 2 * es.length + 1 < F) :
+    ∃ T res, (Gen.SrcAvl.treeDefault >>= srcBuild Gen.SrcAvl.nodeInsert_goLeft F es) = Rs.Res.ok T ∧
+      Inv (toTreeO T.root) ∧ srcFind F T q = Rs.Res.ok res ∧
+      (res.map toE).Perm (expected (entriesOf es) ⟨q.1, q.2⟩) := by
+  obtain ⟨T, h1, h2⟩ := srcBuild_default F es hn (by omega)
+  have hwf : ∀ e ∈ entriesOf es, e.lo < e.hi := by
+    intro e he
+    simp only [entriesOf, List.mem_map] at he
+    obtain ⟨p, hp, rfl⟩ := he
+    exact hw p hp
+  obtain ⟨hi, hp, hperm⟩ := buildG_correct srcTb tieOk_src (entriesOf es) .nil hwf inv_nil
+    (by intro a ha; simp [toList] at ha)
+  have hsz : size (toTreeO T.root) = es.length := by
+    rw [h2]; unfold buildG; rw [size_buildG]; simp [size, entriesOf]
+  obtain ⟨res, r1, r2⟩ := find_eq_model F T q (by omega)
+  refine ⟨T, res, h1, by rw [h2]; exact hi, r1, ?_⟩
+  rw [r2, h2]
+  refine (find_perm _ ⟨q.1, q.2⟩ hi.searchInv hp hq).trans ?_
+  have : (toList (buildG srcTb (entriesOf es))).Perm (entriesOf es) := by
+    refine hperm.trans ?_
+    simp only [toList, List.append_nil]
+    exact List.reverse_perm _
+  exact this.filter _
+
+open RbV.GenSrcAvl in
+/-- the same through `find_mut` + `IntervalTreeIteratorMut::next` -/
+theorem avl_find_mut_source_correct (es : List (Int × Int × Int)) (q : Int × Int) (hn : es.length < 2 ^ 60)
+    (hw : ∀ p ∈ es, p.1 < p.2.1) (hq : q.1 < q.2) (F : Nat) (hF : 2 * es.length + 1 < F) :
+    ∃ T res, (Gen.SrcAvl.treeDefault >>= srcBuild Gen.SrcAvl.nodeInsert_goLeft F es) = Rs.Res.ok T ∧
+      srcFindMut F T q = Rs.Res.ok res ∧ (res.map toEM).Perm (expected (entriesOf es) ⟨q.1, q.2⟩) := by
+  obtain ⟨T, res, h1, hi, r1, hp⟩ := avl_find_source_correct es q hn hw hq F hF
+  have hsz : size (toTreeO T.root) = es.length := by
+    obtain ⟨T', h1', h2'⟩ := srcBuild_default F es hn (by omega)
+    rw [h1] at h1'
+    cases h1'
+    rw [h2']; unfold buildG; rw [size_buildG]; simp [size, entriesOf]
+  obtain ⟨res', m1, m2⟩ := findMut_eq_model F T q (by omega)
+  obtain ⟨res0, f1, f2⟩ := find_eq_model F T q (by omega)
+  rw [r1] at f1
+  cases f1
+  refine ⟨T, res', h1, m1, ?_⟩
+  rw [m2, ← f2]
+  exact hp
+
+open RbV.GenSrcAvl in
+-- non-vacuity: the translated code run on a concrete history (ascending starts: a left rotation at the root; then an
+-- equal start) gives the tree of the model, and the drained translated iterator the model's answer
+example : ((Gen.SrcAvl.treeDefault >>= srcBuild Gen.SrcAvl.nodeInsert_goLeft 9 [(1, 9, 0), (2, 3, 1), (3, 4, 2), (3, 8, 3)]).toOption.map
+    (fun T => toTreeO T.root)) = some (buildG srcTb [⟨1, 9, 0⟩, ⟨2, 3, 1⟩, ⟨3, 4, 2⟩, ⟨3, 8, 3⟩]) := by decide +kernel
+
+open RbV.GenSrcAvl in
+example : ((Gen.SrcAvl.treeDefault >>= srcBuild Gen.SrcAvl.nodeInsert_goLeft 9 [(1, 9, 0), (2, 3, 1), (3, 4, 2), (3, 8, 3)] >>=
+    fun T => srcFind 10 T (7, 9)).toOption.map (fun l => l.map toE)) = some [⟨1, 9, 0⟩, ⟨3, 8, 3⟩] ∨
+    ((Gen.SrcAvl.treeDefault >>= srcBuild Gen.SrcAvl.nodeInsert_goLeft 9 [(1, 9, 0), (2, 3, 1), (3, 4, 2), (3, 8, 3)] >>=
+    fun T => srcFind 10 T (7, 9)).toOption.map (fun l => l.map toE)) = some [⟨3, 8, 3⟩, ⟨1, 9, 0⟩] := by decide +kernel
+
+open RbV.GenSrcAvl in
+-- `rotate_left` without a right child panics (`unwrap()` on `None`); too little fuel is reported as such
+example : (Gen.SrcAvl.rotateLeft ⟨(1, 2), 0, 2, 1, none, none⟩).toOption.isNone = true ∧
+    (Gen.SrcAvl.nodeInsert Gen.SrcAvl.nodeInsert_goLeft 0 ⟨(1, 2), 0, 2, 1, none, none⟩ (3, 4) 1).toOption.isNone = true := by
+  decide +kernel
+
 
 end RbV.Thm.C07
